@@ -435,6 +435,12 @@ func (c *wsConn) call(rid, action string, params interface{}, cb func(result jso
 			cb(nil, "", err)
 			return
 		}
+		// The access response may be handled after the connection has been
+		// disposed, if it was queued behind the closing of the connection.
+		// No call is to be made for a connection that is gone.
+		if c.disposing {
+			return
+		}
 		c.serv.cache.Call(c, sub.ResourceName(), sub.ResourceQuery(), action, c.token, params, false, func(result json.RawMessage, refRID string, _ *codec.Meta, err error) {
 			c.Enqueue(func() {
 				cb(result, refRID, err)
